@@ -49,6 +49,7 @@ namespace
         GraphExecutorValue *executor{nullptr};
     };
     World *W = nullptr;
+    bool g_spurious = true;    // spurious wake-ups of condition waiters are offered as deviations (cost 1)
     std::uint64_t step() { return vs::S().steps; }
 
     void check_pending(const char *where)
@@ -194,6 +195,7 @@ namespace
             else if (world.policy != 'c' && (world.accepted_returned + world.inflight) > static_cast<long>(world.delivered.size()))
                 world.forced_expiry_with_pending = true;
         };
+        vs::S().spurious = getenv("VS_SPURIOUS") != nullptr || g_spurious;
         trace_out = vs::run_controlled(std::move(bodies), prefix, start_ns);
         vs::S().on_expiry = nullptr;
         W = nullptr;
